@@ -498,6 +498,18 @@ def reduction_cases(rnd, n, prefix="R", max_rank=4, dtypes=None, nullable_p=0.0,
             # duplicates on purpose: first occurrence
             out.append(mkcase(cid, {"x": x}, f"out = ndx.{f}(x, axis={ax!r}, keepdims={keep})",
                               f"out = np.{f}(x, axis={ax!r}, keepdims={keep})", meta, rnd))
+    if "var" in funcs:
+        for k in range(max(6, n // 40)):
+            off = rnd.choice([1.0e6, 1.0e7, -3.0e6])
+            sh = [rnd.choice([3, 4, 6])] + ([rnd.choice([2, 3])] if rnd.random() < 0.5 else [])
+            data = [ops.fhex(off + rnd.choice([0.0, 1.0, 2.0, 3.0, 0.5, 1.5])) for _ in range(ops.prod(sh))]
+            x = {"dtype": "float64", "shape": sh, "data": data}
+            ax = rnd.choice([None, 0, -1])
+            corr = rnd.choice([0, 1])
+            meta = {"func": "var", "dtype": "float64", "dclass": "float", "keepdims": False, "style": "offset"}
+            out.append(mkcase(f"{prefix}-off-{k}-var", {"x": x}, f"out = ndx.var(x, axis={ax!r}, correction={corr})",
+                              f"out = np.var(x, axis={ax!r}, ddof={corr})", meta, rnd, (1e-6, 1e-9)))
+
     return out
 
 
@@ -732,6 +744,12 @@ def setitem_cases(rnd, n, prefix="W", max_rank=3, dtypes=("int64", "float32", "b
         c = rnd.random()
         meta = {"func": "setitem", "dtype": d, "dclass": dclass(d), "rank0": len(sh) == 0}
         scalar = {"bool": "True", "utf8": "'zz'"}.get(ops.base(d), "7")
+        if len(sh) == 1 and sh[0] >= 2 and rnd.random() < 0.06:
+            # a Python bool as the whole index of a rank-1 array is a mask (all / nothing), never position 1 / 0
+            bl = rnd.choice(["True", "False"])
+            meta["form"] = "bool-scalar-index"
+            out.append(mkcase(cid, {"x": x}, f"y = x.copy(); y[{bl}] = {scalar}; out = y", f"y = x.copy(); y[{bl}] = {scalar}; out = y", meta, rnd, symbolic=False))
+            continue
         if c < 0.55:
             src = idx_src(rand_index(rnd, sh))
             meta["form"] = "basic-scalar"
@@ -912,6 +930,17 @@ def creation_cases(rnd, n, prefix="C"):
                 out.append(mkcase(cid, {"s": s1, "v": v}, "out = ndx.broadcast_to(v, s)", "out = np.broadcast_to(v, tuple(s))", meta, rnd, symbolic=False))
             else:
                 out.append(mkcase(cid, {"s": s1}, f"out = ndx.{which}(s)", f"out = np.{which}(tuple(s))", meta, rnd, symbolic=False))
+    # full / full_like with a NULL scalar fill of a nullable dtype: every element of the result is null
+    for k in range(max(4, n // 25)):
+        d = rnd.choice(["nint64", "nfloat64", "nint32"])
+        sh = ops.rand_shape(rnd, 2, 0.1, (1, 2, 3))
+        pay = rnd.choice(["5", "0", "-3"])
+        npd = ops.base(d)
+        meta = {"func": "full", "dtype": d, "dclass": dclass(d), "fill": "null-scalar"}
+        fill = f"ndx.asarray(np.ma.masked_array(np.array({pay}, dtype=np.{npd}), mask=True))"
+        out.append(mkcase(f"{prefix}-nullfill-{k}", {}, f"out = ndx.full({sh!r}, {fill})",
+                          f"out = np.ma.masked_array(np.full({sh!r}, {pay}, dtype=np.{npd}), mask=np.ones({sh!r}, dtype=bool))", meta, rnd))
+
     return out
 
 
@@ -968,4 +997,99 @@ def cast_cases(rnd, n, prefix="K"):
             impl = f"y_ = ndx.astype(x, ndx.{b}); y_[...] = 1; out = ndx.astype(x, ndx.{b})"
             meta["history"] = "cast-write-cast"
         out.append(mkcase(cid, {"x": x}, impl, orc, meta, rnd, symbolic=False))
+    # chains of casts: every link rounds / truncates (a chain is not the cast to the last dtype)
+    chains = [("float64", "float32", "float64", [0.1, 1 / 3, 100.7, -2.3, 1.0e-3, 16777217.0]), ("float64", "int32", "float64", [2.5, -2.5, 100.75, 0.99, -0.5]),
+              ("int64", "float32", "int64", [16777217, 33554435, -16777219, 5, 0]), ("float32", "float64", "float32", [0.1, 2.5, -7.25]),
+              ("int32", "int8", "int32", [5, -7, 127, -128, 0]), ("float64", "float32", "int64", [16777217.0, 2.9999999999, -0.9999999999, 7.0]),
+              ("nfloat64", "nfloat32", "nfloat64", [0.1, 1 / 3, 100.7]), ("float64", "float16", "float64", [0.1, 2049.0, 1 / 3])]
+    for k in range(max(6, n // 10)):
+        a, m, b, vals = rnd.choice(chains)
+        if "float16" in (a, m, b):
+            continue
+        sh = [rnd.choice([1, 2, 3, 4])]
+        ba = ops.base(a)
+        data = [rnd.choice(vals) for _ in range(sh[0])]
+        x = {"dtype": a, "shape": sh, "data": [ops.fhex(ops.f32(v) if ba == "float32" else float(v)) for v in data] if ba in ops.FLOATS else [int(v) for v in data]}
+        if ops.nullable(a):
+            x["mask"] = [rnd.random() < 0.3 for _ in data]
+            orc = f"out = mk(data(x).astype(np.{ops.base(m)}).astype(np.{ops.base(b)}), mask(x))"
+        else:
+            orc = f"out = x.astype(np.{m}).astype(np.{b})"
+        meta = {"func": "astype", "src": a, "dst": b, "via": m, "dtype": a, "dclass": dclass(a), "dst_class": dclass(b), "history": "cast-chain"}
+        form = rnd.choice(["out = ndx.astype(ndx.astype(x, ndx.{m}), ndx.{b})", "out = x.astype(ndx.{m}).astype(ndx.{b})"])
+        out.append(mkcase(f"{prefix}-chain-{k}", {"x": x}, form.format(m=m, b=b), orc, meta, rnd, symbolic=False))
+    return out
+
+
+# ------------------------------------------------------- histories on one array object ---
+
+def call_update_call(rnd, cases, k, suffix="cuc"):
+    """From single-statement cases `out = F(x, ...)` build `x_ = x.copy(); r0_ = F(x_, ...); x_[0,..,0] = v; out = F(x_, ...)`:
+    the second call on the SAME array object after an in-place update must see the update (no result, cast or
+    metadata may be remembered on the object).  Oracle: the original oracle on the updated NumPy array."""
+    import re as _re
+    out = []
+    pool = [c for c in cases if c.get("oracle") and c["impl"].startswith("out = ") and ";" not in c["impl"] and "\n" not in c["impl"]
+            and c["inputs"] and "to_numpy" not in c["impl"]]
+    rnd.shuffle(pool)
+    for c in pool:
+        if len(out) >= k:
+            break
+        name = rnd.choice(sorted(c["inputs"]))
+        t = c["inputs"][name]
+        if not t["shape"] or ops.prod(t["shape"]) == 0 or not _re.search(r"\b%s\b" % name, c["impl"][6:]):
+            continue
+        b = ops.base(t["dtype"])
+        d0 = t["data"][0]
+        if ops.nullable(t["dtype"]):
+            continue
+        if b == "bool":
+            lit = "False" if d0 else "True"
+        elif b in ops.INTS:
+            lo, hi = ops.IINFO[b]
+            lit = str(d0 + 1 if d0 < min(hi, 100) else d0 - 1)
+            if c["meta"].get("func") == "searchsorted" and name == "x1":      # x1 must stay sorted
+                if d0 <= lo:
+                    continue
+                lit = str(d0 - 1)
+        elif b in ops.FLOATS:
+            lit = "3.0" if d0 == ops.fhex(7.0) else "7.0"
+            if c["meta"].get("func") == "searchsorted" and name == "x1":
+                if d0 in ("nan", "inf", "-inf"):
+                    continue
+                lit = repr(float.fromhex(d0) - 1.0) if isinstance(d0, str) else repr(float(d0) - 1.0)
+        elif b == "utf8":
+            w = len(d0) - 2          # NumPy's fixed-width string arrays would truncate a longer replacement
+            if w <= 0:
+                continue
+            lit = repr("z" * w) if d0 != "s:" + "z" * w else repr("y" * w)
+        else:
+            continue
+        idx = ", ".join("0" for _ in t["shape"])
+        body = _re.sub(r"\b%s\b" % name, name + "_", c["impl"][6:])
+        impl = f"{name}_ = {name}.copy(); r0_ = {body}; {name}_[{idx}] = {lit}; out = {body}"
+        orc = f"{name} = {name}.copy(); {name}[{idx}] = {lit}; " + c["oracle"]
+        n = dict(c)
+        n.update({"id": f"{c['id']}-{suffix}", "impl": impl, "oracle": orc, "meta": dict(c["meta"], history="call-update-call")})
+        out.append(n)
+    return out
+
+
+def mixed_dtype_cases(rnd, n, prefix="MD"):
+    """Binary element-wise calls whose operands have DIFFERENT dtypes of one kind (the library casts one or both
+    operands before the kernel runs); values small so that every result is representable."""
+    pairs = [("int32", "int64"), ("int8", "int16"), ("int16", "int64"), ("uint8", "int16"), ("uint8", "uint32"), ("int8", "int32"),
+             ("float32", "float64"), ("int16", "float32"), ("int32", "float64"), ("uint16", "int32")]
+    fns = ["add", "subtract", "multiply", "less", "greater_equal", "equal", "not_equal"]
+    out = []
+    while len(out) < n:
+        f = rnd.choice(fns)
+        d1, d2 = rnd.choice(pairs)
+        if rnd.random() < 0.5:
+            d1, d2 = d2, d1
+        a, b = ops.broadcast_pair(rnd, 2, 0.05)
+        x, y = ops.tensor(rnd, d1, a, "small"), ops.tensor(rnd, d2, b, "small")
+        meta = {"func": f, "dtype": d1, "dtype2": d2, "dclass": dclass(d1), "style": "mixed-dtypes"}
+        npf = {"less": "less", "greater_equal": "greater_equal", "equal": "equal", "not_equal": "not_equal"}.get(f, f)
+        out.append(mkcase(f"{prefix}-{len(out)}-{f}", {"x": x, "y": y}, f"out = ndx.{f}(x, y)", f"out = np.{npf}(x, y)", meta, rnd, ew_tol(f, d1)))
     return out
